@@ -8,9 +8,11 @@ import sys
 VERIF = os.path.dirname(os.path.dirname(os.path.abspath(__file__)))
 if VERIF not in sys.path:
     sys.path.insert(0, VERIF)
-# the repository's *current working tree* is what runs
-if "/repo/src" not in sys.path:
-    sys.path.insert(1, "/repo/src")
+# the repository's *current working tree* is what runs (VERIF_REPO_SRC points the sensitivity
+# self-test at a scratch copy with a mutant applied; registered commands never set it)
+REPO_SRC = os.environ.get("VERIF_REPO_SRC") or "/repo/src"
+sys.path[:] = [p for p in sys.path if p != "/repo/src"]
+sys.path.insert(1, REPO_SRC)
 
 
 def main() -> int:
